@@ -181,7 +181,12 @@ class RefEval:
                 return api.V_num(r, s)
             if s == 0:
                 raise RefErr('overflow')
-            raise Outside('sum needs rescaling')
+            if da.s == db.s:
+                # definition: operands on one scale whose exact sum needs 97 bits -> nearest value with one digit less,
+                # ties to even (what rust_decimal's checked_add / checked_sub return; never an overflow at scale > 0)
+                import models
+                return api.V_num(models.round_sum_half_even(r, self.truth), s - 1)
+            raise Outside('sum of operands on different scales needs rescaling')
         if op == '*':
             if self.is_zero(da.m) or self.is_zero(db.m):
                 return api.V_num(0, 0)
